@@ -89,12 +89,13 @@ class DepSet(boolean.AndRestriction, caching=False):
                     if not depsets[-1] or not raw_conditionals:
                         raise DepsetParseError(dep_str, attr=attr)
                     elif raw_conditionals[-1] in operators:
-                        if len(depsets[-1]) == 1:
+                        operator = operators[raw_conditionals[-1]]
+                        if len(depsets[-1]) == 1 and getattr(
+                            operator, "_single_member_collapsible", True
+                        ):
                             depsets[-2].append(depsets[-1][0])
                         else:
-                            depsets[-2].append(
-                                operators[raw_conditionals[-1]](*depsets[-1])
-                            )
+                            depsets[-2].append(operator(*depsets[-1]))
                     else:
                         node_conds = True
                         c = raw_conditionals[-1]
@@ -314,6 +315,12 @@ def _internal_stringify_boolean(
 
     if isinstance(node, boolean.OrRestriction):
         visit("|| (")
+        iterable = node.restrictions
+    elif isinstance(node, boolean.JustOneRestriction):
+        visit("^^ (")
+        iterable = node.restrictions
+    elif isinstance(node, boolean.AtMostOneOfRestriction):
+        visit("?? (")
         iterable = node.restrictions
     elif isinstance(node, boolean.AndRestriction) and not isinstance(node, atom):
         visit("(")
